@@ -205,6 +205,9 @@ func testTx(rng *rand.Rand) *wire.MsgTx {
 // transaction (getdata) and which rejected it.
 func DriveC15(t *tr.W, thorough bool) {
 	rng := tr.Rng(1515)
+	if os.Getenv("VERIF_SEARCH") != "" {
+		thorough = false // search pass after a broken tie: at most three quick runs
+	}
 	vs := [][]string{
 		{"accept", "reject-nogetdata"}, // the suspected shape
 		{"accept", "accept"},
@@ -256,7 +259,80 @@ func DriveC15(t *tr.W, thorough bool) {
 		stopLine(t, s, name)
 		s.Cleanup()
 	}
+	c15InvType(t, rng)
 	c15Corpus(t, rng, thorough)
+}
+
+// c15InvType: peers that ask for the announced transaction with the OTHER tx inv type
+// (InvTypeTx <-> InvTypeWitnessTx).  They have requested the transaction all the same, so they
+// are replying peers: they must be served and must count in the verdict.  Both directions:
+// the default announcement (witness) through SendTransaction, and a base-encoding broadcast
+// (announces InvTypeTx) through the verif hook that calls sendTransaction with Encoding(Base).
+func c15InvType(t *tr.W, rng *rand.Rand) {
+	type mix struct {
+		base  bool
+		peers []Behaviour
+	}
+	acc := func(gd string) Behaviour { return Behaviour{Kind: "honest", Tx: "accept", GD: gd} }
+	rej := func(gd string) Behaviour { return Behaviour{Kind: "honest", Tx: "reject", GD: gd} }
+	mixes := []mix{
+		{false, []Behaviour{acc("flip"), rej("")}},              // 1 of 2 repliers rejects: must succeed
+		{true, []Behaviour{rej(""), acc("flip")}},               // the same with InvTypeTx announced
+		{false, []Behaviour{rej("flip"), rej("flip"), acc("")}}, // 2 of 3 call it invalid: must fail
+		{true, []Behaviour{acc("flip"), acc("flip"), rej("flip")}},
+	}
+	for _, m := range mixes {
+		var names []string
+		for _, b := range m.peers {
+			names = append(names, b.Tx+"/"+b.GD)
+		}
+		enc := "witness"
+		if m.base {
+			enc = "base"
+		}
+		name := "invtype-" + enc + ":" + strings.Join(names, ",")
+		sc := Scenario{Name: name, Len: 10 + rng.Intn(10), Peers: m.peers, Barrier: true}
+		t.Case("c15 invtype %s npeers %d", enc, len(m.peers))
+		s, err := New(sc, rng, t.Op)
+		if err != nil {
+			t.Op("setup", "err "+err.Error())
+			continue
+		}
+		peerLines(t, s)
+		if err := s.Start(); err != nil {
+			t.Op("start", "err "+err.Error())
+			s.Cleanup()
+			continue
+		}
+		ok := s.waitFor(6*time.Second, func(o Obs) bool { return s.converged(o) && len(o.Conn) == len(s.Peers) })
+		t.Op("waitsync", map[bool]string{true: "ok", false: "timeout"}[ok])
+		tx := testTx(rng)
+		res := make(chan error, 1)
+		go func() {
+			if m.base {
+				res <- s.CS.VerifSendTransaction(tx, neutrino.Encoding(wire.BaseEncoding))
+			} else {
+				res <- s.CS.SendTransaction(tx)
+			}
+		}()
+		select {
+		case err := <-res:
+			if err == nil {
+				t.Op("sendtx", "ok")
+			} else {
+				t.Op("sendtx", "err")
+				t.Line("# sendtx error: %s", sanitize(err.Error()))
+			}
+		case <-time.After(10 * time.Second):
+			t.Op("sendtx", "HANG")
+		}
+		for i, p := range s.Peers {
+			t.Op(fmt.Sprintf("saw %d", i), fmt.Sprintf("invtx %d gottx %d", min1(atomic.LoadInt32(&p.GotInvTx)), min1(atomic.LoadInt32(&p.GotTx))))
+		}
+		t.Hit("c15." + name)
+		stopLine(t, s, name)
+		s.Cleanup()
+	}
 }
 
 // c15Corpus: the whole path reject message -> pushtx.ParseBroadcastError ->
@@ -286,7 +362,7 @@ func c15Corpus(t *tr.W, rng *rand.Rand, thorough bool) {
 		{pick("invalid", "", false), acc, acc},
 		{pick("confirmed", "btcd", false), pick("confirmed", "", false)},
 	}
-	extra := 1 * tr.EnvInt("VERIF_BUDGET", 1)
+	extra := 1 * min(tr.EnvInt("VERIF_BUDGET", 1), 3)
 	if thorough {
 		extra = 12 * tr.EnvInt("VERIF_BUDGET", 1)
 	}
